@@ -15,7 +15,7 @@ LEVEL = 'exploration'
 TECHNIQUE = ('metamorphic relation under Hypothesis-drawn key permutations at every depth (cost, pairing signature, '
              'self-equality) plus element-swap relation for lists')
 RULE = ("Cases: a pair (a, b) from the C01 generator x dict strategy x list-edit mode, plus permuted copies a2, b2 in "
-        "which the insertion order of every mapping at every depth is redrawn with st.permutations (one case in six uses mappings with int and float keys, as YAML / pickle / Python-object inputs have them), plus (when a has a "
+        "which the insertion order of every mapping at every depth is redrawn with st.permutations; trees are built by json.build_tree, BasicBuilder or pydiff.build_tree; a quarter of the cases use look-alike sibling keys (leading zeros, case, blanks, Unicode composition, punctuation) with tie-prone values (one case in eight uses mappings with int and float keys, as YAML / pickle / Python-object inputs have them), plus (when a has a "
         "list with two canonically unequal elements) a copy of a with those two elements swapped. Oracle: cost(a,b) = "
         "cost(a2,b2); the pairing signature (who is paired / removed / inserted with which cost, order-insensitive "
         "inside mappings) is identical; cost(a,a2) = 0 and the two trees compare equal; cost(a, swapped a) > 0. "
@@ -64,10 +64,34 @@ def numeric_key_cases(draw):
     return {'a': a, 'b': b, 'a2': a2, 'b2': b2, 'swapped': None, 'ds': ds, 'le': 'on', 'pairs': True}
 
 
+LOOKALIKE_KEYS = [['k1', 'k01', 'k001', 'k'], ['7', '07', '007', '7.0'], ['item10', 'item010', 'item9', 'item'], ['a', 'A', 'a ', ' a'],
+                  ['é', 'e\u0301', 'e'], ['x_y', 'x-y', 'xy']]
+
+
+@st.composite
+def lookalike_key_cases(draw):
+    """sibling string keys that differ only by leading zeros, case, surrounding blanks, Unicode composition or punctuation:
+    any lossy key used for the canonical order lets document order through; values chosen so that pairings tie in cost"""
+    group = draw(st.sampled_from(LOOKALIKE_KEYS))
+    vals = st.sampled_from(['ab', 'b', 'b', 'x', 1])
+    ka = draw(st.lists(st.sampled_from(group), min_size=2, max_size=4, unique=True))
+    kb = draw(st.lists(st.sampled_from(group + ['zz']), min_size=1, max_size=3, unique=True))
+    a = {k: draw(vals) for k in ka}
+    b = {k: draw(vals) for k in kb}
+    if draw(st.booleans()):
+        a, b = {'w': a, 'n': 1}, {'w': b}
+    a2, b2 = shuffled(draw, a), shuffled(draw, b)
+    return {'a': a, 'b': b, 'a2': a2, 'b2': b2, 'swapped': None, 'ds': draw(st.sampled_from(common.DS)), 'le': 'on',
+            'family': draw(st.sampled_from(['json', 'builder', 'pydiff']))}
+
+
 @st.composite
 def cases(draw, max_leaves, max_width):
-    if draw(st.integers(0, 5)) == 0:
+    k = draw(st.integers(0, 7))
+    if k == 0:
         return draw(numeric_key_cases())
+    if k <= 2:
+        return draw(lookalike_key_cases())
     a, b = draw(gen.doc_pairs(max_leaves, max_width))
     ds, le = draw(gen.options)
     a2, b2 = shuffled(draw, a), shuffled(draw, b)
@@ -82,7 +106,7 @@ def cases(draw, max_leaves, max_width):
             nl = list(lst)
             nl[i], nl[j] = nl[j], nl[i]
             sw = put(a, p, nl)
-    return {'a': a, 'b': b, 'a2': a2, 'b2': b2, 'swapped': sw, 'ds': ds, 'le': le}
+    return {'a': a, 'b': b, 'a2': a2, 'b2': b2, 'swapped': sw, 'ds': ds, 'le': le, 'family': draw(st.sampled_from(['json', 'json', 'builder', 'pydiff']))}
 
 
 def jobs(tier):
@@ -104,8 +128,8 @@ def reordered_big(x, y):
     return False
 
 
-def run(doc_a, doc_b, opts):
-    ta, tb = gen.build({'a': doc_a, 'b': doc_b}, 'a', opts), gen.build({'a': doc_a, 'b': doc_b}, 'b', opts)
+def run(doc_a, doc_b, opts, family='json'):
+    ta, tb = gen.build({'a': doc_a, 'b': doc_b, 'family': family}, 'a', opts), gen.build({'a': doc_a, 'b': doc_b, 'family': family}, 'b', opts)
     e = ta.edits(tb)
     common.full_tighten(e)
     probs = Problems()
@@ -120,13 +144,16 @@ def check(case):
     if strict(a) != strict(a2) or strict(b) != strict(b2):
         out.skipped = 'not-a-permutation'
         return out
+    fam = case.get('family', 'json')
+    if fam not in ('json', 'builder', 'pydiff') or case.get('pairs'):
+        fam = 'json' if not case.get('pairs') else case.get('family', 'json')
     with guard('original'):
-        ta, tb, e1, r1 = run(a, b, opts)
+        ta, tb, e1, r1 = run(a, b, opts, fam)
     with guard('permuted'):
-        ta2, tb2, e2, r2 = run(a2, b2, opts)
+        ta2, tb2, e2, r2 = run(a2, b2, opts, fam)
     c1, c2 = e1.bounds(), e2.bounds()
     out.nontrivial = reordered_big(a, a2) or reordered_big(b, b2)
-    out.label('ds:' + case.get('ds', 'auto'), 'le:' + case.get('le', 'on'))
+    out.label('ds:' + case.get('ds', 'auto'), 'le:' + case.get('le', 'on'), 'family:' + fam)
     if out.nontrivial:
         out.label('reordered>=3keys')
     out.info = {'cost': c1.upper_bound if c1.definitive() else str(c1)}
@@ -135,9 +162,9 @@ def check(case):
     elif signature(r1) != signature(r2):
         out.fail('permutation-changes-pairing', f"same cost {c1} but a different pairing after reordering keys: a2={a2!r} b2={b2!r}")
     with guard('self'):
-        _, _, e3, _ = run(a, a2, opts)
+        _, _, e3, _ = run(a, a2, opts, fam)
         c3 = e3.bounds()
-        eq = gen.build({'a': a}, 'a', opts) == gen.build({'a': a2}, 'a', opts)
+        eq = gen.build({'a': a, 'family': fam}, 'a', opts) == gen.build({'a': a2, 'family': fam}, 'a', opts)
     if not (c3.definitive() and c3.upper_bound == 0):
         out.fail('permuted-copy-not-equal', f"a document and its key-permuted copy cost {c3}: {a!r} vs {a2!r}")
     elif not eq:
@@ -146,7 +173,7 @@ def check(case):
     if sw is not None and loose(sw) != loose(a):
         out.label('swap')
         with guard('swap'):
-            _, _, e4, _ = run(a, sw, opts)
+            _, _, e4, _ = run(a, sw, opts, fam)
             c4 = e4.bounds()
         if c4.lower_bound == 0 and c4.upper_bound == 0:
             out.fail('swap-costs-nothing', f"swapping two unequal list elements costs 0: {a!r} vs {sw!r}")
